@@ -134,6 +134,19 @@ func (l *local) Reopen(via string) (res Result) {
 
 func (l *local) Close() {}
 
+func scribble(b []byte) {
+	for i := range b {
+		b[i] ^= 0xA5
+	}
+}
+
+func cloneBytes(b []byte) []byte {
+	if b == nil {
+		return nil
+	}
+	return append([]byte{}, b...)
+}
+
 func (l *local) Do(op Op) (res Result) {
 	fail := func(err error) {
 		if err != nil {
@@ -143,12 +156,20 @@ func (l *local) Do(op Op) (res Result) {
 	p, txt := vf.Recover(func() {
 		switch op.Kind {
 		case "set":
-			fail(l.st.Set(string(op.Key), op.Val))
+			// the caller owns its buffers: the value is handed over as a private copy that is overwritten as soon
+			// as Set has returned, and what Get returns is copied out and then scribbled over
+			arg := append([]byte{}, op.Val...)
+			fail(l.st.Set(string(op.Key), arg))
+			scribble(arg)
 		case "get":
 			v, err := l.st.Get(string(op.Key))
 			fail(err)
 			if err == nil {
-				res.Val = v
+				res.Val = append([]byte{}, v...)
+				if v == nil {
+					res.Val = nil
+				}
+				scribble(v)
 			}
 		case "del":
 			fail(l.st.Delete(string(op.Key)))
@@ -159,12 +180,17 @@ func (l *local) Do(op Op) (res Result) {
 				res.Keys = append(res.Keys, []byte(k))
 			}
 		case "save":
-			fail(l.d.SaveEntity(db.Entity{Name: string(op.Key), PublicKey: op.Pub, PrivateKey: op.Priv}))
+			pub, priv := cloneBytes(op.Pub), cloneBytes(op.Priv)
+			fail(l.d.SaveEntity(db.Entity{Name: string(op.Key), PublicKey: pub, PrivateKey: priv}))
+			scribble(pub)
+			scribble(priv)
 		case "ent":
 			e, err := l.d.EntityWithName(string(op.Key))
 			fail(err)
 			if err == nil {
-				res.Ent = &EntityR{[]byte(e.Name), e.PublicKey, e.PrivateKey}
+				res.Ent = &EntityR{[]byte(e.Name), cloneBytes(e.PublicKey), cloneBytes(e.PrivateKey)}
+				scribble(e.PublicKey)
+				scribble(e.PrivateKey)
 			}
 		case "delent":
 			l.d.DeleteEntity(db.Entity{Name: string(op.Key)})
@@ -172,7 +198,9 @@ func (l *local) Do(op Op) (res Result) {
 			es, err := l.d.Entities()
 			fail(err)
 			for _, e := range es {
-				res.Ents = append(res.Ents, EntityR{[]byte(e.Name), e.PublicKey, e.PrivateKey})
+				res.Ents = append(res.Ents, EntityR{[]byte(e.Name), cloneBytes(e.PublicKey), cloneBytes(e.PrivateKey)})
+				scribble(e.PublicKey)
+				scribble(e.PrivateKey)
 			}
 		default:
 			res.Broken = "unknown op " + op.Kind
@@ -1018,6 +1046,10 @@ func pickLen(rnd *rand.Rand, cur int, live bool) int {
 				return cur / 2
 			case 2:
 				return 0
+			case 3: // a multiple of the 32-byte buffer hc reads files with
+				if n := (rnd.Intn(cur) / 32) * 32; n > 0 {
+					return n
+				}
 			}
 			return rnd.Intn(cur)
 		case x < 75 && cur < 4096: // longer
@@ -1043,7 +1075,11 @@ func pickLen(rnd *rand.Rand, cur int, live bool) int {
 
 func genVal(rnd *rand.Rand, n int, old []byte) []byte {
 	b := make([]byte, n)
-	switch rnd.Intn(8) {
+	sel := rnd.Intn(8)
+	if n > 0 && n < len(old) && rnd.Intn(3) == 0 {
+		sel = 0 // a proper prefix of the value it replaces
+	}
+	switch sel {
 	case 0: // shares its beginning with the old value
 		rnd.Read(b)
 		copy(b, old)
